@@ -1,0 +1,161 @@
+//go:build verif
+// +build verif
+
+// Verification hook for C19 (build tag "verif"), second part: the collected
+// state the plotter reads is produced by the REAL collector — generated action
+// reports, observations and audition reports go through the real
+// collectActionReport / collectObservation / collectAuditionReport (with the
+// app as reporter, so that expandTimeRange is exercised too) — and then the
+// real assemble and plot run.  Only adds an exported entry point.
+
+package cmd
+
+import (
+	"bytes"
+	"context"
+	"fmt"
+	"io/ioutil"
+	"os"
+	"path/filepath"
+	"time"
+
+	"github.com/knz/shakespeare/pkg/crdb/log"
+	"github.com/knz/shakespeare/pkg/crdb/stop"
+)
+
+// VerifCollectEvent is one event the collector receives during a play.
+type VerifCollectEvent struct {
+	Kind   string  // "action" | "obs" | "report"
+	Ts     float64 // action start / observation / report time
+	Actor  string  // action: the actor; obs: varName.actorName ("" for a variable)
+	Sig    string  // obs: varName.sigName; action: the action name
+	Member string  // report: the auditor
+	Result int     // action / report result code
+	Val    string  // obs: value; report: output
+	IsNum  bool    // obs: scalar (else event)
+}
+
+// VerifCollectAndPlot parses cfgText, feeds the events through the real
+// collector functions, installs the mood periods and act changes, and calls
+// the real assemble and plot.  CollectErr is the first error a collector
+// function returned (later events are still fed).
+func VerifCollectAndPlot(
+	cfgText string, events []VerifCollectEvent, moods []VerifMoodPeriod, acts []VerifActChange, numRepeats int,
+) (out VerifPlotOutput, collectErr string, csv []string) {
+	defer func() {
+		if r := recover(); r != nil {
+			out.Panic = fmt.Sprintf("%v", r)
+		}
+	}()
+	cfg, err := verifParseString(cfgText, nil)
+	if err != nil {
+		out.ParseErr = err.Error()
+		return out, "", nil
+	}
+	tmp, err := ioutil.TempDir("", "shk-verif-colplot")
+	if err != nil {
+		panic(err)
+	}
+	defer os.RemoveAll(tmp)
+	cfg.dataDir = tmp
+	var narration bytes.Buffer
+	cfg.narration = &narration
+	cfg.gnuplotPath = filepath.Join(tmp, "no-such-gnuplot")
+	cfg.avoidTimeProgress = true
+	if err := os.MkdirAll(filepath.Join(tmp, "csv"), 0755); err != nil {
+		panic(err)
+	}
+
+	out.Actors = append([]string(nil), cfg.actorNames...)
+	out.RepeatActNum = cfg.repeatActNum
+	out.NumActs = len(cfg.play)
+	out.TextW, out.TextH, out.TextTerm = cfg.textPlotWidth, cfg.textPlotHeight, cfg.textPlotTerm
+	for _, n := range cfg.audienceNames {
+		a := cfg.audience[n]
+		m := VerifPlotMember{
+			Name: a.name, Ylabel: a.observer.ylabel, DisablePlot: a.observer.disablePlot,
+			IsAuditor: a.auditor.expectFsm != nil || len(a.auditor.assignments) > 0,
+			ActiveSrc: a.auditor.activeCond.src, ExpectSrc: a.auditor.expectExpr.src,
+		}
+		if a.auditor.expectFsm != nil {
+			m.ExpectFsm = a.auditor.expectFsm.name
+		}
+		for _, vn := range a.observer.obsVarNames {
+			m.Vars = append(m.Vars, VerifPlotVar{Actor: vn.actorName, Sig: vn.sigName, DrawEvents: a.observer.obsVars[vn].drawEvents})
+		}
+		out.Members = append(out.Members, m)
+	}
+
+	ctx := context.Background()
+	stopper := stop.NewStopper()
+	defer stopper.Stop(ctx)
+	ap := newApp(ctx, cfg)
+	defer ap.close()
+	ap.startTime = time.Now()
+	col := &collector{
+		r:       ap,
+		cfg:     cfg,
+		stopper: stopper,
+		st:      makeCollectorState(cfg),
+		logger:  log.NewSecondaryLogger(ctx, nil, "collector", true, false),
+	}
+	of := newOutputFiles()
+	note := func(err error) {
+		if err != nil && collectErr == "" {
+			collectErr = err.Error()
+		}
+	}
+	for _, e := range events {
+		switch e.Kind {
+		case "action":
+			note(col.collectActionReport(ctx, of, &actionReport{
+				startTime: e.Ts, duration: 0.01, actor: e.Actor, action: e.Sig, result: result(e.Result), output: "exit status 0",
+			}))
+		case "obs":
+			typ := sigTypEvent
+			if e.IsNum {
+				typ = sigTypScalar
+			}
+			note(col.collectObservation(ctx, of, &observation{
+				ts: e.Ts, typ: typ, varName: varName{actorName: e.Actor, sigName: e.Sig}, val: e.Val,
+			}))
+		case "report":
+			_, err := col.collectAuditionReport(ctx, of, &auditionReport{
+				ts: e.Ts, auditor: e.Member, result: result(e.Result), output: e.Val,
+			})
+			note(err)
+		}
+	}
+	of.CloseAll()
+	files, _ := ioutil.ReadDir(filepath.Join(tmp, "csv"))
+	for _, f := range files {
+		if f.Size() > 0 {
+			csv = append(csv, f.Name())
+		}
+	}
+
+	for _, p := range moods {
+		ap.auRes.moodPeriods = append(ap.auRes.moodPeriods, moodPeriod{startTime: p.Start, endTime: p.End, mood: p.Mood})
+	}
+	for _, c := range acts {
+		ap.auRes.actChanges = append(ap.auRes.actChanges, &actChange{ts: c.Ts, actNum: c.ActNum})
+	}
+	ap.auRes.numRepeats = numRepeats
+
+	res := ap.assemble(ctx, nil)
+	out.MinTime, out.MaxTime = res.MinTime, res.MaxTime
+	if r := res.Repeat; r != nil {
+		out.HasRepeat = true
+		out.RepeatStart, out.RepeatFirst, out.RepeatLast, out.RepeatNum = r.StartTime, r.FirstRepeatedAct, r.LastRepeatedAct, r.NumRepeats
+	}
+	if err := ap.plot(ctx, res); err != nil {
+		out.PlotErr = err.Error()
+	}
+	out.Files = make(map[string]string)
+	pfiles, _ := ioutil.ReadDir(filepath.Join(tmp, "plots"))
+	for _, f := range pfiles {
+		b, _ := ioutil.ReadFile(filepath.Join(tmp, "plots", f.Name()))
+		out.Files[f.Name()] = string(b)
+	}
+	return out, collectErr, csv
+}
